@@ -1211,3 +1211,63 @@ package yqlib
 //@     invariant anchorsOnlyRemoved() && value.Anchor == "" && nodeList(newContent.MatchingNodes)
 //@   loop 2:
 //@     invariant anchorsOnlyRemoved() && value.Anchor == "" && nodeList(newContent.MatchingNodes)
+
+// ---------------------------------------------------------------------------------------------
+// candidate_node_yaml.go: conversion between yaml.v3 nodes and candidate nodes (C05)
+
+//@ func MapYamlStyle
+//@   props C05 C11
+//@   ensures @same-number {C05} result == original
+
+//@ func MapToYamlStyle
+//@   props C05 C11
+//@   ensures @same-number {C05} result == original
+
+//@ func (*CandidateNode).copyFromYamlNode
+//@   props C05
+//@   nosafety
+//@   requires o != nil && node != nil
+//@   modifies o.Style, o.Tag, o.Value, o.Anchor, o.Alias, o.HeadComment, o.LineComment, o.FootComment, o.Line, o.Column
+//@   ensures @presentation-kept {C05} o.Style == node.Style && o.Tag == node.Tag && o.Value == node.Value && o.Anchor == node.Anchor && o.HeadComment == node.HeadComment && o.LineComment == node.LineComment && o.FootComment == node.FootComment && o.Line == node.Line && o.Column == node.Column
+
+//@ func (*CandidateNode).copyToYamlNode
+//@   props C05 C11
+//@   requires o != nil && node != nil
+//@   modifies node.Style, node.Tag, node.Value, node.Anchor, node.HeadComment, node.LineComment, node.FootComment, node.Line, node.Column
+//@   ensures @presentation-kept {C05} node.Style == o.Style && node.Tag == o.Tag && node.Value == o.Value && node.Anchor == o.Anchor && node.HeadComment == o.HeadComment && node.LineComment == o.LineComment && node.FootComment == o.FootComment && node.Line == o.Line && node.Column == o.Column
+
+//@ pred sameLook(c, y) = y.Style == c.Style && y.Tag == c.Tag && y.Value == c.Value && y.Anchor == c.Anchor && y.HeadComment == c.HeadComment && y.LineComment == c.LineComment && y.FootComment == c.FootComment && y.Line == c.Line && y.Column == c.Column
+
+//@ func (*CandidateNode).MarshalYAML
+//@   props C05
+//@   nosafety
+//@   flags allowdead       // the conversion never fails, so its own error branch is dead code
+//@   requires o != nil
+//@   assume @children-non-nil forall(i, 0, len(o.Content), o.Content[i] != nil)
+//@   ensures @a-node-of-the-same-kind-and-look {C05} result1 == nil && result0 != nil && fresh(result0) && sameLook(o, result0) && implies(o.Kind == AliasNode || o.Kind == ScalarNode || o.Kind == MappingNode || o.Kind == SequenceNode, result0.Kind == 2 * o.Kind)
+//@   ensures @children-in-order {C05} implies(o.Kind == MappingNode || o.Kind == SequenceNode, len(result0.Content) == len(o.Content) && forall(i, 0, len(o.Content), result0.Content[i] != nil && sameLook(o.Content[i], result0.Content[i])))
+//@   loop 1:
+//@     invariant 0 <= i && i <= len(o.Content) && target != nil && fresh(target) && len(target.Content) == len(o.Content) && freshSlice(target.Content) && sameLook(o, target) && target.Kind == 2 * o.Kind
+//@     invariant forall(j, 0, i, target.Content[j] != nil && fresh(target.Content[j]) && sameLook(o.Content[j], target.Content[j]))
+
+//@ func (*CandidateNode).decodeIntoChild
+//@   props C05
+//@   nosafety
+//@   requires o != nil && childNode != nil
+//@   ensures @child-of-the-same-look {C05} implies(result1 == nil, result0 != nil && fresh(result0) && sameLook(result0, childNode) && result0.Parent == o)
+
+//@ func (*CandidateNode).UnmarshalYAML
+//@   props C05
+//@   nosafety
+//@   requires o != nil && node != nil
+//@   assume @children-non-nil forall(i, 0, len(node.Content), node.Content[i] != nil) && (len(node.Content) % 2 == 0 || node.Kind != 4)
+//@   modifies o.Kind, o.Style, o.Tag, o.Value, o.Anchor, o.Alias, o.HeadComment, o.LineComment, o.FootComment, o.Line, o.Column, o.Content
+//@   ensures @same-kind-and-look {C05} implies(result == nil, sameLook(o, node) && implies(node.Kind == 2 || node.Kind == 4 || node.Kind == 8 || node.Kind == 16, 2 * o.Kind == node.Kind))
+//@   ensures @children-in-order {C05} implies(result == nil && (node.Kind == 2 || node.Kind == 4), len(o.Content) == len(node.Content) && forall(i, 0, len(node.Content), o.Content[i] != nil && sameLook(o.Content[i], node.Content[i])))
+//@   ensures @unknown-kinds-are-refused {C05} implies(node.Kind != 0 && node.Kind != 2 && node.Kind != 4 && node.Kind != 8 && node.Kind != 16, result != nil)
+//@   loop 1:
+//@     invariant 0 <= i && i <= len(node.Content) && i % 2 == 0 && len(o.Content) == len(node.Content) && freshSlice(o.Content) && sameLook(o, node) && o.Kind == MappingNode
+//@     invariant forall(j, 0, i, o.Content[j] != nil && fresh(o.Content[j]) && sameLook(o.Content[j], node.Content[j]))
+//@   loop 2:
+//@     invariant 0 <= i && i <= len(node.Content) && len(o.Content) == len(node.Content) && freshSlice(o.Content) && sameLook(o, node) && o.Kind == SequenceNode
+//@     invariant forall(j, 0, i, o.Content[j] != nil && fresh(o.Content[j]) && sameLook(o.Content[j], node.Content[j]))
